@@ -129,6 +129,7 @@ class Sched:
         self.status = ["new"] * n  # new / ready / spin / done
         self.pending = [None] * n
         self.progress_since_spin = [True] * n
+        self.last_run = [0] * n
         self.idle_spins = [0] * n  # consecutive sleeps of a spinner during which no other thread made a step
         install()
         self.cwd = {i: _REAL["getcwd"]() for i in range(n)}
@@ -207,6 +208,14 @@ class Sched:
                     self.deadlock = f"horizon of {self.horizon} scheduling steps reached"
                     break
                 i = len(self.points)
+                yielded = self.current is not None and self.status[self.current] == "spin"
+                if yielded:
+                    # the running thread gave up the processor in a poll loop: fair, deterministic hand-over (threads that
+                    # can make progress first, by ascending id; pollers take turns) -- branching here would let two
+                    # pollers ping-pong for ever while the lock holder is never scheduled
+                    ready = [t for t in en if self.status[t] == "ready"]
+                    others = [t for t in en if t != self.current]
+                    en = [ready[0]] if ready else ([min(others, key=lambda t: (self.last_run[t], t))] if others else en[:1])
                 if len(en) > 1:
                     if i < len(self.prefix):
                         c = self.prefix[i]
@@ -221,6 +230,7 @@ class Sched:
                 t = en[c]
                 self.trace.append((t,) + tuple(self.pending[t] or ()))
                 self.current = t
+                self.last_run[t] = self.steps
                 for o in range(self.n):
                     if o != t:
                         self.progress_since_spin[o] = True
